@@ -43,8 +43,9 @@ begin
 
   proc: process(clk)
     variable temp : boolean;
-    variable temp1 : unsigned(2 downto 0);
+    variable temp1 : boolean;
     variable temp2 : unsigned(2 downto 0);
+    variable temp3 : unsigned(2 downto 0);
   begin
     if rising_edge(clk) then
       temp := reset = '1';
@@ -54,28 +55,27 @@ begin
         buffer_resetable_bit <= '0';
         buffer_resetable_bitvector <= "000";
       else
-        case s_proc is
-          when state_0 =>
-            s_proc <= state_1;
-            temp1 := (cnt) + (1);
-            cnt <= temp1;
-          when state_1 =>
-            if step = '1' then
+        temp1 := step = '1';
+        if temp1 then
+          case s_proc is
+            when state_0 =>
+              s_proc <= state_1;
+              temp2 := (cnt) + (1);
+              cnt <= temp2;
+            when state_1 =>
               s_proc <= state_2;
               buffer_out_bit <= cnt(1);
               buffer_resetable_bit <= cnt(1);
-              temp2 := (cnt) + (1);
-              cnt <= temp2;
-            end if;
-          when state_2 =>
-            if step = '1' then
+              temp3 := (cnt) + (1);
+              cnt <= temp3;
+            when state_2 =>
               s_proc <= state_0;
               buffer_out_bitvector <= std_logic_vector(cnt);
               buffer_resetable_bitvector <= std_logic_vector(cnt);
-            end if;
-          when others =>
-            null;
-        end case;
+            when others =>
+              null;
+          end case;
+        end if;
       end if;
     end if;
   end process;
